@@ -46,9 +46,20 @@ func streamSuite(r *Run, prop string) {
 	rng := r.Rng
 	n := r.Budget(500, 6000)
 	baseline := relevantGoroutines()
-	for i := 0; i < n; i++ {
+	corpus := isCorpus() // past failures first, then generated scripts
+	if prop == "C08" {
+		// this property's oracle is about single-response methods only
+		var keep []isCorpusEntry
+		for _, e := range corpus {
+			if e.kind == "cstream" || e.kind == "unarystream" {
+				keep = append(keep, e)
+			}
+		}
+		corpus = keep
+	}
+	for i := -len(corpus); i < n; i++ {
 		transport := "inproc"
-		if i%5 == 4 {
+		if i >= 0 && i%5 == 4 {
 			transport = "http"
 		}
 		kinds := []string{"bidi", "sstream", "cstream", "unarystream"}
@@ -57,6 +68,12 @@ func streamSuite(r *Run, prop string) {
 			kind = []string{"cstream", "unarystream"}[rng.Intn(2)]
 		}
 		o := isOpts{steps: 5 + rng.Intn(10), transport: transport, halfDuplex: transport == "http"}
+		if i < 0 {
+			e := corpus[i+len(corpus)]
+			kind, transport = e.kind, e.transport
+			o = isOpts{transport: transport, fixed: e.steps}
+			r.Count("corpus:IS")
+		}
 		switch prop {
 		case "C04":
 			o.allowCancel = true
